@@ -93,6 +93,7 @@ CALCS = {
     "harmonic": lambda: calcs.Harmonic(k=0.05, centre=(3.0, 3.0, 3.0)),
     "pairsoft": lambda: calcs.PairSoft(centre=(3.0, 3.0, 3.0)),
     "peratom": lambda: calcs.PerAtomState(centre=(3.0, 3.0, 3.0)),
+    "pairspecies": lambda: calcs.PairSpecies(centre=(3.0, 3.0, 3.0)),
     "quartic": lambda: calcs.Quartic(a=0.02, b=0.002, centre=(3.0, 3.0, 3.0)),
 }
 
@@ -282,13 +283,8 @@ def build(spec: dict) -> System:
             mc = Isobaric(atoms, temperature=T, pressure=spec.get("P", 0.001), **kw)
         elif ens == "Isotension":
             st = spec.get("stress")
-            mc = Isotension(
-                atoms,
-                temperature=T,
-                pressure=spec.get("P", 0.001),
-                external_stress=None if st is None else np.array(st, dtype=float),
-                **kw,
-            )
+            skw = {} if st is None else {"external_stress": np.array(st, dtype=float)}  # default stress: argument left out
+            mc = Isotension(atoms, temperature=T, pressure=spec.get("P", 0.001), **skw, **kw)
         elif ens == "GrandCanonical":
             nex = spec.get("nex")
             if nex is None:
